@@ -113,7 +113,8 @@ FormNames == {"inv_fn", "inv_fnptr", "inv_functor_l", "inv_functor_c", "inv_func
               "rw_call_l", "rw_call_c", "rw_identity", "rw_fn",
               "bf_l", "bf_c", "bf_r", "bf_lv", "bf_memfn", "bf_fn",
               "nf_l", "nf_c", "nf_r", "nf_fn",
-              "ipf_sig3", "ipf_sig3_copy"}
+              "ipf_sig3", "ipf_sig3_copy",
+              "fl_l", "fl_c", "fl_r", "fl_cr", "flk_l", "flk_c", "flk_r", "flk_cr"}
 
 FormExpect(form, x) ==
     CASE form \in {"inv_fn", "inv_fnptr", "fr_fn", "rw_fn"} -> Fn1(x)
@@ -137,6 +138,13 @@ FormExpect(form, x) ==
       [] form = "nf_l" -> Pred(x, 1)
       [] form = "nf_c" -> Pred(x, 2)
       [] form = "nf_r" -> Pred(x, 3)
+      \* forward_like<Owner>(member) ([forward]/P2445): const from the owner or the member, rvalue iff the owner is
+      [] form = "fl_l" -> [calls |-> <<>>, ret |-> <<x.a, 1>>]
+      [] form = "fl_c" -> [calls |-> <<>>, ret |-> <<x.a, 2>>]
+      [] form = "fl_r" -> [calls |-> <<>>, ret |-> <<x.a, 3>>]
+      [] form = "fl_cr" -> [calls |-> <<>>, ret |-> <<x.a, 4>>]
+      [] form \in {"flk_l", "flk_c"} -> [calls |-> <<>>, ret |-> <<x.a, 2>>]
+      [] form \in {"flk_r", "flk_cr"} -> [calls |-> <<>>, ret |-> <<x.a, 4>>]
       \* not_fn(function): odd(a) negated
       [] form = "nf_fn" -> [calls |-> <<[t |-> 10, c |-> 0, self |-> 0, a |-> <<x.a>>, k |-> <<0>>, r |-> B(Odd(x.a))]>>,
                             ret |-> <<B(~Odd(x.a))>>]
